@@ -45,9 +45,9 @@ pub const SPEC: PropSpec = PropSpec {
         ("race.unsubscribe_during_publish", 100, 4_000),
         ("race.subscribe_during_publish", 100, 4_000),
         ("N5.checked_after_unsubscribe", 2_000, 80_000),
-        ("N5.physical_unsubscribe_rounds", 300, 12_000),
+        ("N5.physical_unsubscribe_rounds", 300, 4_000),
         ("N6.final_len_checked", 20_000, 800_000),
-        ("runtime.operations", 20_000, 1_000_000),
+        ("runtime.operations", 20_000, 600_000),
         ("paused_clock.publishes", 2_000, 50_000),
         ("socket.events_seen_by_good_client", 50, 2_000),
     ],
@@ -535,7 +535,7 @@ pub fn run_schedule(rng: &mut Rng, rep: &mut Report) {
 
 fn runtime_lane(cfg: &RunCfg, rep: &mut Report) {
     let rt = tokio::runtime::Builder::new_multi_thread().worker_threads(4).enable_all().build().expect("rt");
-    let rounds = cfg.cases(2_500, 100_000);
+    let rounds = cfg.cases(2_500, 40_000);
     let mut rng = Rng::derive(cfg.seed, &[0xC20, 1]);
     let lane_start = Instant::now();
     for _ in 0..rounds {
@@ -568,8 +568,8 @@ fn runtime_lane(cfg: &RunCfg, rep: &mut Report) {
             // blocked tasks stay parked on this runtime; one witness is enough, do not pile up 5 s waits
             break;
         }
-        if lane_start.elapsed() > Duration::from_secs(120) {
-            rep.inconclusive("runtime lane watchdog (120 s) expired".into());
+        if lane_start.elapsed() > Duration::from_secs(900) {
+            rep.inconclusive("runtime lane watchdog (900 s) expired".into());
             break;
         }
         let ev = log.ev.lock().unwrap().clone();
@@ -580,7 +580,7 @@ fn runtime_lane(cfg: &RunCfg, rep: &mut Report) {
     // A publisher hammers one topic that also has several permanently full capacity-1 subscribers (long fan-out
     // loop, large payload); a victim subscribes, waits a little, unsubscribes, drains what is buffered at that
     // instant and then watches its channel: any line that appears later was sent after the unsubscribe completed.
-    let rounds = cfg.cases(400, 16_000);
+    let rounds = cfg.cases(400, 6_000);
     let lane_start = Instant::now();
     for round in 0..rounds {
         let hub = SubscriptionHub::new();
@@ -629,7 +629,7 @@ fn runtime_lane(cfg: &RunCfg, rep: &mut Report) {
             rep.violation("C20.N5.delivered-after-unsubscribe", format!("real runtime, round {round}: a line landed in the subscriber's channel after its unsubscribe() had returned and the channel had been drained ({fulls} full capacity-1 co-subscribers, payload {} B): {l}...", payload.len()));
             break;
         }
-        if lane_start.elapsed() > Duration::from_secs(120) {
+        if lane_start.elapsed() > Duration::from_secs(600) {
             break;
         }
     }
@@ -749,7 +749,9 @@ pub fn run(cfg: &RunCfg) -> Report {
     let mut rep = run_cases(cfg, 0, cases, Duration::from_secs(3600), |_c, rng, rep| run_schedule(rng, rep));
     if cfg.replay_case.is_none() && cfg.lane.as_deref() != Some("miri") {
         runtime_lane(cfg, &mut rep);
-        socket_lane(cfg, &mut rep);
+        if cfg.lane.is_none() {
+            socket_lane(cfg, &mut rep);
+        }
     }
     rep
 }
